@@ -489,8 +489,30 @@ pub fn run(ctx: &Ctx) -> Report {
         } else {
             gen::sequence(t, &mut r, &c, 1, if cfg!(miri) { 2 } else { 4 }, k as u64)
         };
-        let (shp, shx) = write_all_mem(&shapes, true).expect("harness: write");
-        let want: Vec<D> = shapes.iter().map(|s| s.d().expected_after_roundtrip()).collect();
+        let (mut shp, mut shx) = write_all_mem(&shapes, true).expect("harness: write");
+        let mut want: Vec<D> = shapes.iter().map(|s| s.d().expected_after_roundtrip()).collect();
+        if t == 11 && k % 2 == 1 && k < 1000 {
+            // the other legal PointZ layout (another producer's): records WITHOUT the measure,
+            // 14 words each; the reader reports NO_DATA for it
+            let mut out = shp[..100].to_vec();
+            let mut idx = shx[..100].to_vec();
+            for (i, rec) in rawshp::walk(&shp).iter().enumerate() {
+                let body = &shp[rec.end() - 36..rec.end() - 8];
+                idx.extend_from_slice(&((out.len() / 2) as i32).to_be_bytes());
+                idx.extend_from_slice(&14i32.to_be_bytes());
+                out.extend_from_slice(&((i + 1) as i32).to_be_bytes());
+                out.extend_from_slice(&14i32.to_be_bytes());
+                out.extend_from_slice(body);
+            }
+            let w = (out.len() / 2) as i32;
+            out[24..28].copy_from_slice(&w.to_be_bytes());
+            shp = out;
+            shx = idx;
+            for d in want.iter_mut() {
+                d.parts[0][0][3] = shapefile::NO_DATA.to_bits();
+            }
+            rep.count("files_of_PointZ_records_without_measure", 1);
+        }
         let ends: Vec<usize> = rawshp::walk(&shp).iter().map(|r| r.end()).collect();
         assert_eq!(ends.len(), shapes.len(), "harness: record walk disagrees with the number of shapes written");
         if !cfg!(miri) {
